@@ -213,6 +213,17 @@ def pair_cases(part, parts):
                 i += 1
 
 
+BOUNDARIES = [0, 1, 0x7f, 0x80, 0xff, 0x100, 0x7fff, 0x8000, 0xd7ff, 0xe000, 0xfffe, 0xffff, 0x10000, 0x10fffe, 0x10ffff]
+
+
+def boundary_cases():
+    for a in BOUNDARIES:
+        for b in BOUNDARIES:
+            for ctor in ('between', 'butbetween'):
+                yield {'expr': [ctor, ['c', chr(a)], ['c', chr(b)]]}
+            yield {'expr': ['from', [['c', chr(a)], ['c', chr(b)]]]}
+
+
 def shards(tier):
     quick = tier == 'quick'
     out = [{'mode': 'named'}]
@@ -227,6 +238,7 @@ def shards(tier):
 def run_shard(spec, ctx):
     if spec['mode'] == 'named':
         run_enumeration(ctx, ({'expr': e} for e in named_cases()), check_case, 'every named Any*/AnyBut* class and every token class')
+        run_enumeration(ctx, boundary_cases(), check_case, 'AnyBetween / AnyButBetween / AnyFrom over all ordered pairs of 15 conventional code-point boundaries')
     elif spec['mode'] == 'pairs':
         run_enumeration(ctx, pair_cases(spec['part'], spec['parts']), check_case,
                         f'ordered pairs over {len(PAIR_ALPHABET)} characters x 4 constructors (part)')
